@@ -26,7 +26,7 @@ var c12Fields = []string{"facility", "level", "time", "host", "app", "pid", "sou
 const c12MaxFields = 14
 
 // the code after the fix of defect 19 copies in truncate (model: TruncCopy)
-const c12TruncMode = 0
+const c12TruncMode = 1
 
 // ---------- the case, its encoding (mirrors mem_decode_pipeline in coq/Model/MemoryRun.v) ----------
 
